@@ -29,6 +29,8 @@ from vlib.oracles import pipeline_interp as interp
 SELF = {'self': 1}
 SKIP = {'skip': 1}
 NAMES = ['a', 'b', 'c', 'd', 'e', 'f', 'g', 'h', 'k1', 'k2']
+# Ordinary string keys that merely spell a reserved key's name.
+LOOKALIKES = ['SELF', 'SKIP']
 
 
 def idx(i):
@@ -384,13 +386,16 @@ def gen_records(rng, shape=None, n=None):
   recs = []
   if shape == 'dict':
     keys = [k for k in 'abcde' if rng.random() < 0.7] or ['a']
+    if rng.random() < 0.15:
+      keys += rng.choice([['SELF'], ['SKIP'], ['SKIP', 'SELF']])
     deep = rng.random() < 0.7
     for r in range(n):
       b = 100 * (r + 1)
       full = {'a': b + 1, 'b': b + 2,
               'c': {'x': b + 3, 'y': [b + 4, b + 5]} if deep else b + 3,
               'd': (b + 6, b + 7),
-              'e': [{'u': b + 8}, b + 9]}
+              'e': [{'u': b + 8}, b + 9],
+              'SELF': b + 10, 'SKIP': [b + 11]}
       recs.append({k: full[k] for k in keys})
   elif shape == 'list':
     for r in range(n):
@@ -531,7 +536,8 @@ def _in_container(rng, keys, names=None):
 
 
 def _fresh(rng, avoid, k):
-  names = [n for n in NAMES if hk(n) not in avoid]
+  pool = NAMES + (LOOKALIKES if rng.random() < 0.12 else [])
+  names = [n for n in pool if hk(n) not in avoid]
   rng.shuffle(names)
   return names[:k] if len(names) >= k else None
 
